@@ -67,7 +67,7 @@ OP_ORDER_RX = re.compile(
 def strip_guarded(text):
     """Removes items under #[cfg(test)] / #[cfg(mini_moka_verif)] (brace matched) and comments."""
     out, i, n = [], 0, len(text)
-    pat = re.compile(r"#\[cfg\((test|mini_moka_verif)\)\]")
+    pat = re.compile(r"#\[cfg\((test|mini_moka_verif|mini_moka_verif_phase|all\(mini_moka_verif[^\]]*)\)\]")
     while i < n:
         m = pat.search(text, i)
         if not m:
